@@ -101,6 +101,15 @@ def build_keyword_package(naming: bool, gated: set) -> tuple[dict, dict]:
         for n in enames[:12]:
             files[f"src/pk/{n}/__init__.py"] = ""
             files[f"src/pk/{n}/leaf.py"] = "class LeafCls:\n    def go(self) -> None: ...\n\n\ndef leaf_fn(x: LeafCls) -> LeafCls: ...\n"
+            # path segments of every shape next to the keyword segment (snake_case, CamelCase, digits), used from outside
+            files[f"src/pk/{n}/data_utils.py"] = "class SnakeCls:\n    pass\n"
+            files[f"src/pk/{n}/CamelMod.py"] = "class CamelCls:\n    pass\n"
+            files[f"src/pk/{n}/sub_pkg2/__init__.py"] = ""
+            files[f"src/pk/{n}/sub_pkg2/deep_mod.py"] = "class DeepCls:\n    pass\n"
+            files[f"src/pk/user_of_{n}.py"] = (
+                f"from pk.{n}.data_utils import SnakeCls\nfrom pk.{n}.CamelMod import CamelCls\nfrom pk.{n}.sub_pkg2.deep_mod import DeepCls\nfrom pk.{n}.leaf import LeafCls\n\n\n"
+                "def use(a: SnakeCls, b: CamelCls, c: DeepCls, d: LeafCls) -> SnakeCls: ...\n"
+            )
         feats["package-segment"] = min(12, len(enames))
     if "ident:keyword@reexport-alias" not in gated:
         files["src/pk/alias_src.py"] = "".join(f"def orig_{i}() -> None: ...\n\n" for i in range(len(enames)))
